@@ -841,12 +841,20 @@ class DispersiveTilt(TiltInterface):
         super().__init__(**kwargs)
         
         self.trace = np.asarray(trace)
-        self._trace_order = self.trace.size - 1
         assert self._trace_order >= 1
 
         self.dispersion = np.asarray(dispersion)
-        self._dispersion_order = self.dispersion.size - 1
         assert self._dispersion_order >= 1
+
+    # the polynomial orders follow the current coefficients: trace and
+    # dispersion are plain attributes and may be replaced after construction
+    @property
+    def _trace_order(self):
+        return np.asarray(self.trace).size - 1
+
+    @property
+    def _dispersion_order(self):
+        return np.asarray(self.dispersion).size - 1
 
     def shift(self, wavelength, xs=0., ys=0., **kwargs):
 
